@@ -144,6 +144,13 @@ def internalKeys (a : Annotation) : List Int :=
   | none => []
   | some d => d.map (·.1)
 
+/-- the internal-mod loop of `__eq__`: when either side has internal mods, every key of the union of the key sets
+must carry equal mod lists on both sides (`get_internal_mods_by_index` is None for a missing key) -/
+def internalOk (a b : Annotation) : Bool :=
+  if a.internal.isSome || b.internal.isSome then
+    (internalKeys a ++ internalKeys b).all fun k => areModsEqual (getInternal a k) (getInternal b k)
+  else true
+
 /-- `ProFormaAnnotation.__eq__` -/
 def annEq (a b : Annotation) : Bool :=
   if a.seq != b.seq then false
@@ -154,8 +161,7 @@ def annEq (a b : Annotation) : Bool :=
   else if !(areModsEqual a.adducts b.adducts) then false
   else if !(areModsEqual a.isotope b.isotope) then false
   else if !(areModsEqual a.static b.static) then false
-  else if (a.internal.isSome || b.internal.isSome) &&
-      !((internalKeys a ++ internalKeys b).all fun k => areModsEqual (getInternal a k) (getInternal b k)) then false
+  else if !(internalOk a b) then false
   else if !(areIntervalsEqual a.intervals b.intervals) then false
   else if a.charge != b.charge then false
   else true
